@@ -131,3 +131,5 @@ func canon(v any) string {
 }
 
 func sortStrings(s []string) { sort.Strings(s) }
+
+func jsonUnmarshal(b []byte, v any) error { return json.Unmarshal(b, v) }
